@@ -104,6 +104,20 @@ Lemma read_JObj : forall l b,
   read_budget (JObj l) b = let '(p, r, ok) := rdo l b in (JObj p, r, ok).
 Proof. intros. rewrite read_budget_JObj, read_obj_rdo. reflexivity. Qed.
 
+(* a scalar is read whole when its extension slot (if it needs one) can be had; otherwise the document holds null *)
+Lemma read_scalar_cases : forall v b, scalar v ->
+  (slots v <= b /\ read_budget v b = (v, b - slots v, true)) \/
+  (slots v = 1 /\ ext v = 1 /\ b = 0 /\ read_budget v b = (JNull, 0, false)).
+Proof.
+  intros v b Hs. rewrite (slots_scalar v Hs).
+  assert (HE : read_budget v b = scalar_budget v b) by (destruct v; try contradiction; reflexivity).
+  rewrite HE. destruct (scalar_budget_cases v b) as [[H1 H2]|[H1 [H2 H3]]]; [left|right]; auto.
+Qed.
+
+(* the reader and the copy treat scalars alike *)
+Lemma copy_read_scalar : forall v b, scalar v -> copy_budget v b = read_budget v b.
+Proof. intros v b Hs. destruct v; try contradiction; reflexivity. Qed.
+
 (* ------------------------------------------------------------------------------------------------ *)
 (* 1. enough slots: the read is Ok, the document is the value and exactly slots v are taken;          *)
 (*    Ok iff enough                                                                                  *)
@@ -133,11 +147,16 @@ Proof.
     f_equal. f_equal. lia.
 Qed.
 
+Lemma read_enough_scalar : forall v, scalar v -> rcomplete_at v.
+Proof.
+  intros v Hs n Hn. destruct (read_scalar_cases v n Hs) as [[_ HSeq]|[HS1 [_ [HSb _]]]]; [exact HSeq|lia].
+Qed.
+
 Theorem read_enough : forall v b,
   slots v <= b -> read_budget v b = (v, b - slots v, true).
 Proof.
   intros v. change (rcomplete_at v).
-  induction v using jv_ind_cb; try (intros n Hn; cbn [read_budget slots]; rewrite Nat.sub_0_r; reflexivity).
+  induction v using jv_ind_cb; try (apply read_enough_scalar; exact I).
   - intros n Hn. rewrite slots_JArr in *. rewrite read_JArr, (rda_enough l H n Hn). reflexivity.
   - intros n Hn. rewrite slots_JObj in *. rewrite read_JObj, (rdo_enough l H n Hn). reflexivity.
 Qed.
@@ -178,10 +197,16 @@ Proof.
     reflexivity.
 Qed.
 
+Lemma read_short_scalar : forall v, scalar v -> rfails_at v.
+Proof.
+  intros v Hs n Hn. destruct (read_scalar_cases v n Hs) as [[HSle _]|[_ [_ [_ HSeq]]]]; [lia|].
+  rewrite HSeq. reflexivity.
+Qed.
+
 Theorem read_short : forall v b, b < slots v -> snd (read_budget v b) = false.
 Proof.
   intros v. change (rfails_at v).
-  induction v using jv_ind_cb; try (intros n Hn; cbn [slots] in Hn; lia).
+  induction v using jv_ind_cb; try (apply read_short_scalar; exact I).
   - intros n Hn. rewrite slots_JArr in Hn. rewrite read_JArr.
     pose proof (rda_short l H n Hn) as HS. destruct (rda l n) as [[p r] ok]. exact HS.
   - intros n Hn. rewrite slots_JObj in Hn. rewrite read_JObj.
@@ -211,7 +236,8 @@ Qed.
 (* 2. what the reader leaves is a reader-truncation of the value                                     *)
 (* ------------------------------------------------------------------------------------------------ *)
 (* rtrunc p v: p is v as a reader that ran out of slots leaves it.  An array (object) keeps its first n elements
-   (members) unchanged and possibly one more, the one that was being read, itself cut short (with the same key). *)
+   (members) unchanged and possibly one more, the one that was being read, itself cut short (with the same key).
+   A double or a wide integer (ext v = 1) whose extension slot could not be had is null. *)
 Inductive rtrunc : jv -> jv -> Prop :=
 | rt_refl : forall v, rtrunc v v
 | rt_arr_cut : forall p l n, p = firstn n l -> rtrunc (JArr p) (JArr l)
@@ -219,7 +245,8 @@ Inductive rtrunc : jv -> jv -> Prop :=
     p = firstn n l ++ [pe] -> nth_error l n = Some e -> rtrunc pe e -> rtrunc (JArr p) (JArr l)
 | rt_obj_cut : forall p l n, p = firstn n l -> rtrunc (JObj p) (JObj l)
 | rt_obj_part : forall p l n k e pe,
-    p = firstn n l ++ [(k, pe)] -> nth_error l n = Some (k, e) -> rtrunc pe e -> rtrunc (JObj p) (JObj l).
+    p = firstn n l ++ [(k, pe)] -> nth_error l n = Some (k, e) -> rtrunc pe e -> rtrunc (JObj p) (JObj l)
+| rt_ext : forall v, ext v = 1 -> rtrunc JNull v.   (* a scalar whose extension slot could not be had: null *)
 
 (* the same for the element and member lists, by recursion on the list *)
 Inductive atr : list jv -> list jv -> Prop :=
@@ -302,10 +329,17 @@ Proof.
     + specialize (He b2). rewrite Heq in *. cbn [fst] in *. apply otr_part, He.
 Qed.
 
+Lemma read_rtrunc_scalar : forall v, scalar v -> rtrunc_at v.
+Proof.
+  intros v Hs n. destruct (read_scalar_cases v n Hs) as [[_ HSeq]|[_ [HSe [_ HSeq]]]]; rewrite HSeq; cbn [fst].
+  - apply rt_refl.
+  - apply rt_ext, HSe.
+Qed.
+
 Theorem read_rtrunc : forall v b, rtrunc (fst (fst (read_budget v b))) v.
 Proof.
   intros v. change (rtrunc_at v).
-  induction v using jv_ind_cb; try (intros n; cbn [read_budget fst]; apply rt_refl).
+  induction v using jv_ind_cb; try (apply read_rtrunc_scalar; exact I).
   - intros n. rewrite read_JArr. pose proof (rda_atr l H n) as HO.
     destruct (rda l n) as [[p r] ok]. cbn [fst] in *. apply atr_rtrunc, HO.
   - intros n. rewrite read_JObj. pose proof (rdo_otr l H n) as HO.
@@ -336,12 +370,13 @@ Qed.
 
 Theorem rtrunc_slots : forall p v, rtrunc p v -> slots p <= slots v.
 Proof.
-  induction 1 as [v|p l n Hp|p l n e pe Hp Hn HT IH|p l n Hp|p l n k e pe Hp Hn HT IH].
+  induction 1 as [v|p l n Hp|p l n e pe Hp Hn HT IH|p l n Hp|p l n k e pe Hp Hn HT IH|v Hv].
   - lia.
   - rewrite !slots_JArr. subst p. apply slots_arr_firstn.
   - rewrite !slots_JArr. subst p. eapply slots_arr_firstn_part; eauto.
   - rewrite !slots_JObj. subst p. apply slots_obj_firstn.
   - rewrite !slots_JObj. subst p. eapply slots_obj_firstn_part; eauto.
+  - rewrite slots_JNull. lia.
 Qed.
 
 (* ------------------------------------------------------------------------------------------------ *)
@@ -380,10 +415,17 @@ Proof.
     + injection Heq as <- <- <-. destruct (He _ _ _ _ Ee) as [H1 H2]. cbn [slots_obj]. lia.
 Qed.
 
+Lemma read_conserve_scalar : forall v, scalar v -> rconserve_at v.
+Proof.
+  intros v Hs n p r ok Heq.
+  destruct (read_scalar_cases v n Hs) as [[HSle HSeq]|[_ [_ [HSb HSeq]]]]; rewrite HSeq in Heq; injection Heq as <- <- <-.
+  - lia.
+  - rewrite slots_JNull. lia.
+Qed.
+
 Lemma read_conserve_aux : forall v, rconserve_at v.
 Proof.
-  induction v using jv_ind_cb;
-    try (intros n p r ok Heq; cbn [read_budget] in Heq; injection Heq as <- <- <-; cbn [slots]; lia).
+  induction v using jv_ind_cb; try (apply read_conserve_scalar; exact I).
   - intros n p r ok Heq. rewrite read_JArr in Heq. destruct (rda l n) as [[p' r'] ok'] eqn:El.
     injection Heq as <- <- <-. rewrite slots_JArr. eapply rda_conserve; eauto.
   - intros n p r ok Heq. rewrite read_JObj in Heq. destruct (rdo l n) as [[p' r'] ok'] eqn:El.
@@ -444,11 +486,23 @@ Proof.
       * cbn [fst] in *. apply otr_part, He. lia.
 Qed.
 
+Lemma read_mono_scalar : forall v, scalar v -> rmono_at v.
+Proof.
+  intros v Hs n n' Hn.
+  destruct (read_scalar_cases v n Hs) as [[HSle HSeq]|[_ [HSe [HSb HSeq]]]];
+    destruct (read_scalar_cases v n' Hs) as [[HSle' HSeq']|[HS1' [_ [HSb' HSeq']]]];
+    rewrite HSeq, HSeq'; cbn [fst].
+  - apply rt_refl.
+  - lia.
+  - apply rt_ext, HSe.
+  - apply rt_refl.
+Qed.
+
 Theorem read_mono : forall v b b', b <= b' ->
   rtrunc (fst (fst (read_budget v b))) (fst (fst (read_budget v b'))).
 Proof.
   intros v. change (rmono_at v).
-  induction v using jv_ind_cb; try (intros n n' Hn; cbn [read_budget fst]; apply rt_refl).
+  induction v using jv_ind_cb; try (apply read_mono_scalar; exact I).
   - intros n n' Hn. rewrite !read_JArr. pose proof (rda_mono l H n n' Hn) as HO.
     destruct (rda l n) as [[p r] ok]. destruct (rda l n') as [[p' r'] ok']. cbn [fst] in *.
     apply atr_rtrunc, HO.
@@ -521,11 +575,14 @@ Proof.
       rewrite Heq' in *. cbn [fst] in *. apply otr_part, He.
 Qed.
 
+Lemma copy_rtrunc_read_scalar : forall v, scalar v -> cr_at v.
+Proof. intros v Hs n. rewrite (copy_read_scalar v n Hs). apply rt_refl. Qed.
+
 Theorem copy_rtrunc_read : forall v b,
   rtrunc (fst (fst (copy_budget v b))) (fst (fst (read_budget v b))).
 Proof.
   intros v. change (cr_at v).
-  induction v using jv_ind_cb; try (intros n; cbn [copy_budget read_budget fst]; apply rt_refl).
+  induction v using jv_ind_cb; try (apply copy_rtrunc_read_scalar; exact I).
   - intros n. rewrite copy_JArr, read_JArr. pose proof (cpa_rda l n) as HO.
     destruct (cpa l n) as [[p r] ok]. destruct (rda l n) as [[p' r'] ok']. cbn [fst] in *.
     apply atr_rtrunc, HO.
@@ -583,4 +640,23 @@ Proof. vm_compute. reflexivity. Qed.
 Example rex_copy_b9 : copy_budget ex_v 9 = (JArr [JInt 1; ex_inner], 5, false).
 Proof. vm_compute. reflexivity. Qed.
 Example rex_copy_b12 : copy_budget ex_v 12 = (JArr [JInt 1; ex_inner], 7, false).
+Proof. vm_compute. reflexivity. Qed.
+
+(* scalars with an extension slot: ex_xv = [0.1, 5000000000]  (4 slots) *)
+Example rexx_b0 : read_budget ex_xv 0 = (JArr [], 0, false).
+Proof. vm_compute. reflexivity. Qed.
+(* the element's slot is had, its extension slot is not: the element stays, null (the copy discards it: exx_b1) *)
+Example rexx_b1 : read_budget ex_xv 1 = (JArr [JNull], 0, false).
+Proof. vm_compute. reflexivity. Qed.
+Example rexx_b2 : read_budget ex_xv 2 = (JArr [ex_dbl], 0, false).
+Proof. vm_compute. reflexivity. Qed.
+Example rexx_b3 : read_budget ex_xv 3 = (JArr [ex_dbl; JNull], 0, false).
+Proof. vm_compute. reflexivity. Qed.
+Example rexx_b4 : read_budget ex_xv 4 = (ex_xv, 0, true).
+Proof. vm_compute. reflexivity. Qed.
+Example rexx_obj_b1 : read_budget (JObj [([97%N], ex_dbl)]) 1 = (JObj [], 0, false).
+Proof. vm_compute. reflexivity. Qed.
+Example rexx_obj_b2 : read_budget (JObj [([97%N], ex_dbl)]) 2 = (JObj [([97%N], JNull)], 0, false).
+Proof. vm_compute. reflexivity. Qed.
+Example rexx_obj_b3 : read_budget (JObj [([97%N], ex_dbl)]) 3 = (JObj [([97%N], ex_dbl)], 0, true).
 Proof. vm_compute. reflexivity. Qed.
